@@ -222,7 +222,7 @@ def cosim_one(args):
         out['closed_flags'] = [c.is_closed for c in chans] + [conn.is_closed]
 
     ctx = vrt.run_scenario(scenario, refbroker.factory(policy), seed=seed, p_preempt=0.15, p_jump=0.1,
-                           repo_path=str(common.REPO))
+                           fair_time=(seed % 2 == 1), repo_path=str(common.REPO))
     out['abort'] = ctx.sched.abort_reason
     out['preemptions'] = ctx.sched.preemptions
     out['thread_excs'] = [(t.name, repr(t.exc)) for t in ctx.sched.threads if t.exc is not None]
